@@ -13,7 +13,7 @@
 From Coq Require Import List NArith ZArith Bool Arith Permutation Sorted.
 From KV Require Import Model.GroupBalancers Proofs.GroupBalancersBase Proofs.GroupBalancersRange
   Proofs.GroupBalancersRR Proofs.GroupBalancersProofs Proofs.GroupBalancersRackGlobal
-  Proofs.GroupBalancersLeader.
+  Proofs.GroupBalancersLeader Proofs.GroupBalancersSync.
 Import ListNotations.
 
 (* ---- exactly once, to a subscriber, nothing else ----
@@ -280,6 +280,47 @@ Theorem C14_leader_even : forall ms cluster, wf_group ms ->
 Proof. exact leader_even_all. Qed.
 Print Assumptions C14_leader_even.
 
+(* ---- what the coordinator RECEIVES: the leader's SyncGroup request
+   (consumergroup.go makeSyncGroupRequestV0).  [sync_request a] is the decoded request built
+   from the assignment a: one entry per member of a, holding (topic, int32 partitions);
+   [wire_triples] reads it back as (member, topic, partitions).
+   The request names every member of the assignment exactly once and the entry of member
+   id carries, for every topic, exactly assignments[id][topic] (converted to int32). ---- *)
+Theorem C14_sync_request_is_assignment : forall a,
+  NoDup (map fst (sync_request a)) /\
+  (forall id, In id (map fst (sync_request a)) <-> exists tr, In tr a /\ fst (fst tr) = id) /\
+  (forall id t, assigned (wire_triples (sync_request a)) id t = map int32_of (assigned a id t)) /\
+  (forall z, (-2147483648 <= z < 2147483648)%Z -> int32_of z = z).
+Proof. exact sync_request_spec. Qed.
+Print Assumptions C14_sync_request_is_assignment.
+
+(* end to end on the wire: for every group, every cluster with int32 partition ids (also
+   one lacking subscribed topics), every balancer and iteration order, the SyncGroup request
+   the coordinator receives gives every partition the cluster has of a subscribed topic to
+   exactly one subscriber (the three clauses, to which C14_exactly_one_holder applies), with
+   floor/ceil loads *)
+Theorem C14_leader_wire_partition : forall ms cluster, wf_group ms ->
+  (forall p, In p cluster -> (-2147483648 <= p_id p < 2147483648)%Z) ->
+  forall a,
+    (a = leader_range ms cluster \/ a = leader_rr ms cluster \/
+     (exists zo ro,
+        (forall t, Permutation (zo t) (zones_of (aget t (partitions_by_topic (leader_partitions ms cluster)))) /\
+                   Permutation (ro t) (zones_of (aget t (partitions_by_topic (leader_partitions ms cluster))))) /\
+        leader_rack zo ro ms cluster = Some a)) ->
+    let w := wire_triples (sync_request a) in
+    (NoDup (tkeys w) /\
+     (forall tr, In tr w ->
+        exists m, In m ms /\ m_id m = fst (fst tr) /\ In (snd (fst tr)) (m_topics m)) /\
+     (forall t, Permutation (topic_parts w t)
+                            (if existsb (subscribes t) ms then find_partitions t cluster else []))) /\
+    (forall t m1 m2, In m1 ms -> In m2 ms -> In t (m_topics m1) -> In t (m_topics m2) ->
+       let P := length (find_partitions t cluster) in
+       let M := length (filter (subscribes t) ms) in
+       length (assigned w (m_id m1) t) <= length (assigned w (m_id m2) t) + 1 /\
+       P / M <= length (assigned w (m_id m1) t) <= P / M + 1).
+Proof. exact leader_wire_partition. Qed.
+Print Assumptions C14_leader_wire_partition.
+
 (* ---- non-vacuity: a concrete group meeting the hypotheses ---- *)
 Definition ex_ms : list member :=
   [ mkMember [99]%N [[116]; [117]]%N [2]%N;      (* "c" subscribes t,u  rack 2 *)
@@ -339,3 +380,11 @@ Example C14_example_leader_fallback :
   [ ([97]%N, [116]%N, [4]%Z); ([97; 49]%N, [116]%N, [0; 7]%Z); ([99]%N, [116]%N, [2; 9]%Z);
     ([97; 49]%N, [117]%N, []); ([99]%N, [117]%N, []) ].
 Proof. vm_compute. split; reflexivity. Qed.
+
+(* the SyncGroup request of the example: "c" carries t and u, "a" only t *)
+Example C14_example_sync :
+  sync_request (range_assign ex_ms ex_ps) =
+  [ ([97]%N, [([116]%N, [4]%Z)]);
+    ([97; 49]%N, [([116]%N, [0; 7]%Z); ([117]%N, [])]);
+    ([99]%N, [([116]%N, [2; 9]%Z); ([117]%N, [0]%Z)]) ].
+Proof. vm_compute. reflexivity. Qed.
